@@ -1023,3 +1023,29 @@ def local_scope(F, b, limit=12):
                     if cb.vis.startswith("Restricted") and cb.file == b.file and cb.path not in seen:
                         work.append(cb)
     return out
+
+
+def ok_variants(b):
+    """for an accessor `fn(&self) -> Result<..>` / Option that matches on an enum: the names of the variants from whose arm an
+    `Ok(..)` / `Some(..)` return is reachable; None if the body does not switch on a discriminant with known variant names."""
+    sw = None
+    for bi in range(b.n):
+        t = b.term(bi)
+        if t["k"] == "switch":
+            d = b.def_rv(t["d"])
+            if d and d[2] == "rv" and d[3]["k"] == "discr" and d[3].get("vars"):
+                sw = (bi, t, {str(v): n for v, n in d[3]["vars"]})
+                break
+    if sw is None:
+        return None
+    bi, t, names = sw
+    oks = [x for x, _s in blocks_assigning_ret_variant(b, "Ok")] + [x for x, _s in blocks_assigning_ret_variant(b, "Some")]
+    out = set()
+    listed = set()
+    for v, x in t["tg"]:
+        listed.add(str(v))
+        if any(x == o or b.can_reach(x, o) for o in oks):
+            out.add(names.get(str(v), str(v)))
+    if any(t["else"] == o or b.can_reach(t["else"], o) for o in oks):
+        out |= {n for v, n in names.items() if v not in listed}
+    return out
